@@ -137,13 +137,19 @@ structure Raw where
   stack : List PS := [.init]
   m : MSt := {}
 
+/-- The decoder after a `decode` call that ended in an error: `if !matches!(result, Ok(None)) { self.reset() }` — fresh.
+(Read from the source: with the condition `matches!(result, Ok(Some(_)))` the state in which the error struck would
+survive into the next document.) -/
+def Raw.afterErr (st : List PS) (m : MSt) : Raw :=
+  if SwimVerif.Generated.Recon.decodeResetsOnError then {} else { stack := st, m := m }
+
 /-- `decode` on the text available in the buffer: new decoder, what stays in the buffer, outcome.  Anything but
 "need more" resets the decoder; an error leaves the buffer as it was. -/
 def Raw.decode (d : Raw) (avail : List Char) : Raw × List Char × Out :=
   match decodeInner d.stack d.m avail with
   | (st, m, rest, .none) => ({ stack := st, m := m }, rest, .none)
   | (_, _, rest, .value v) => ({}, rest, .value v)
-  | (_, _, _, o) => ({}, avail, o)
+  | (st, m, _, o) => (Raw.afterErr st m, avail, o)
 
 /-- `final_parser()`: only a parser whose whole stack is `[Init]` or `[AfterAttr]` has a final-segment parser. -/
 def hasFinal (stack : List PS) : Bool :=
@@ -242,17 +248,19 @@ def Raw.decodeB (d : Raw) (buf : List Nat) : Raw × List Nat × Out :=
     match d.decode avail with
     | (d', rest, o) => (d', buf.drop (utf8LenL avail - utf8LenL rest), o)
 
-/-- `decode_eof` on a byte buffer. -/
-def Raw.decodeEofB (d : Raw) (buf : List Nat) : List Nat × Out :=
+/-- `decode_eof` on a byte buffer: decoder, remaining buffer, outcome.  `decode_eof` ends with `self.reset()` — but
+`read_utf8(..)?` at its head returns before that when the buffer is not UTF-8 (`eofBadUtf8Resets = false`, finding
+C09-N5): then the decoder stays as it was. -/
+def Raw.decodeEofB (d : Raw) (buf : List Nat) : Raw × List Nat × Out :=
   match readUtf8 buf with
-  | none => (buf, .err)
+  | none => ((if SwimVerif.Generated.Recon.eofBadUtf8Resets then {} else d), buf, .err)
   | some avail =>
     match d.decodeEof avail buf.isEmpty with
-    | (rest, o) => (buf.drop (utf8LenL avail - utf8LenL rest), o)
+    | (rest, o) => ({}, buf.drop (utf8LenL avail - utf8LenL rest), o)
 
 /-- The bare decoder on byte chunks (as the harness drives it). -/
 def rawRunB : Raw → List Nat → List (List Nat) → Out
-  | d, buf, [] => (d.decodeEofB buf).2
+  | d, buf, [] => (d.decodeEofB buf).2.2
   | d, buf, c :: cs =>
     match d.decodeB (buf ++ c) with
     | (d', rest, .none) => rawRunB d' rest cs
@@ -281,8 +289,7 @@ def consumeBounded (inner : Raw) (remaining : Nat) (src : List Nat) : Raw × Lis
   let part := src.take toSplit
   let tail := src.drop toSplit
   let r : Raw × List Nat × Out :=
-    if remaining ≤ part.length then (match inner.decodeEofB part with | (rest, o) => ({}, rest, o))
-    else inner.decodeB part
+    if remaining ≤ part.length then inner.decodeEofB part else inner.decodeB part
   let consumed := part.length - r.2.1.length
   (r.1, (if remaining = consumed then tail else r.2.1 ++ tail), consumed, r.2.2)
 
@@ -318,5 +325,49 @@ def wlRun : WL → List Nat → List (List Nat) → Out
     match WL.decode 6 w (buf ++ c) with
     | (w', rest, .none) => wlRun w' rest cs
     | (_, _, o) => o
+
+/-! ## several documents through ONE decoder instance -/
+
+/-- One document through the bare decoder, character level (`decode` after every chunk, `decode_eof` at the end of the
+document — which always resets): the decoder afterwards and the document's result.  `(rawDoc d buf cs).2 = rawRun d buf cs`. -/
+def rawDoc : Raw → List Char → List (List Char) → Raw × Out
+  | d, buf, [] => ({}, (d.decodeEof buf buf.isEmpty).2)
+  | d, buf, c :: cs =>
+    match d.decode (buf ++ c) with
+    | (d', rest, .none) => rawDoc d' rest cs
+    | (d', _, o) => (d', o)
+
+/-- Documents one after the other through the same bare decoder, each with a buffer of its own (what is left of a
+document after its result is dropped by the framing layer); no explicit `reset()` in between. -/
+def rawSeq : Raw → List (List (List Char)) → List Out
+  | _, [] => []
+  | d, doc :: docs => (rawDoc d [] doc).2 :: rawSeq (rawDoc d [] doc).1 docs
+
+/-- The same on bytes. -/
+def rawDocB : Raw → List Nat → List (List Nat) → Raw × Out
+  | d, buf, [] => ((d.decodeEofB buf).1, (d.decodeEofB buf).2.2)
+  | d, buf, c :: cs =>
+    match d.decodeB (buf ++ c) with
+    | (d', rest, .none) => rawDocB d' rest cs
+    | (d', _, o) => (d', o)
+
+def rawSeqB : Raw → List (List (List Nat)) → List Out
+  | _, [] => []
+  | d, doc :: docs => (rawDocB d [] doc).2 :: rawSeqB (rawDocB d [] doc).1 docs
+
+/-- `FramedRead` on one buffer: call `decode` until it says `None`; every result (`n` bounds the number of results). -/
+def wlLoop : Nat → WL → List Nat → List Out → WL × List Nat × List Out
+  | 0, w, buf, acc => (w, buf, acc ++ [.fuel])
+  | n + 1, w, buf, acc =>
+    match WL.decode 6 w buf with
+    | (w', rest, .none) => (w', rest, acc)
+    | (w', rest, o) => wlLoop n w' rest (acc ++ [o])
+
+/-- Frames back to back through one length-delimited decoder, delivered in chunks: every result, in order. -/
+def wlSeq : WL → List Nat → List (List Nat) → List Out
+  | _, _, [] => []
+  | w, buf, c :: cs =>
+    match wlLoop ((buf ++ c).length / 8 + 2) w (buf ++ c) [] with
+    | (w', rest, outs) => outs ++ wlSeq w' rest cs
 
 end SwimVerif.ReconInc
